@@ -1,11 +1,122 @@
 package checks
 
 import (
+	"fmt"
+	"strings"
+
 	"verifharness/internal/fw"
+	"verifharness/internal/gen"
+	"verifharness/internal/model"
 	"verifharness/internal/proto"
+	"verifharness/internal/ref"
 )
 
-// filled in together with the model renderer
-func exactnessJobs(c *fw.Ctx, emit func(*proto.Job)) {}
+var exactTokens = map[string][]model.Token{}
 
-func c12Exact(c *fw.Ctx, j *proto.Job, res *proto.Result) {}
+// exactnessJobs renders models and scans every rendered file through the public scanner.
+func exactnessJobs(c *fw.Ctx, emit func(*proto.Job)) {
+	r := gen.Rng(c.Seed, c.ID, "exact-models")
+	n := c.Pick(1200, 25000)
+	for i := 0; i < n; i++ {
+		m := model.Generate(r, model.FullSize)
+		l := model.RandomLayout(gen.Rng(c.Seed, c.ID, "exact-layout", fmt.Sprint(i)))
+		rd := m.Render(l)
+		for name, content := range rd.Files {
+			id := fmt.Sprintf("exact/%d:%s", i, name)
+			maxMuLock.Lock()
+			exactTokens[id] = rd.Tokens[name]
+			maxMuLock.Unlock()
+			emit(&proto.Job{ID: id, Root: name, Files: map[string][]byte{name: content}, Scan: true})
+		}
+	}
+}
+
+func normText(s string) string {
+	s = strings.ReplaceAll(strings.ReplaceAll(s, "\r\n", "\n"), "\r", "\n")
+	var out []string
+	for _, ln := range strings.Split(s, "\n") {
+		ln = strings.TrimSpace(ln)
+		if ln != "" {
+			out = append(out, ln)
+		}
+	}
+	return strings.Join(out, "\n")
+}
+
+func c12Exact(c *fw.Ctx, j *proto.Job, res *proto.Result) {
+	maxMuLock.Lock()
+	toks := exactTokens[j.ID]
+	delete(exactTokens, j.ID)
+	maxMuLock.Unlock()
+	content := j.Files[j.Root]
+	rp := &fw.Replay{Jobs: []*proto.Job{j}, Results: []interface{}{res}, Expected: toks}
+	if !res.Accepted {
+		msg := "(none)"
+		if res.ScanErr != nil {
+			msg = res.ScanErr.Msg
+		}
+		c.Violate("exact:rendered-file-rejected", "the scanner rejected a rendered file: "+msg, rp)
+		return
+	}
+	typeOf := map[string]string{"regex": "text", "enum": "unknown-lexeme-type"}
+	if len(res.Lexemes) != len(toks) {
+		c.Violate("exact:lexeme-count", fmt.Sprintf("%d lexemes for %d rendered tokens", len(res.Lexemes), len(toks)), rp)
+		return
+	}
+	c.Inc("exactness", "lexemes_compared", len(toks))
+	for i, t := range toks {
+		lx := res.Lexemes[i]
+		want := t.Type
+		if w, ok := typeOf[want]; ok {
+			want = w
+		}
+		if lx.Type != want {
+			c.Violate("exact:lexeme-type", fmt.Sprintf("lexeme %d is %s, the document has a %s (%q) there", i, lx.Type, t.Type, trunc(t.Text, 40)), rp)
+			return
+		}
+		switch t.Type {
+		case "annotation", "text":
+			lo, hi := 0, len(content)-1
+			if i > 0 {
+				lo = toks[i-1].End + 1
+			}
+			if i+1 < len(toks) {
+				hi = toks[i+1].Begin - 1
+			}
+			if lx.Begin < lo || lx.End > hi {
+				c.Violate("exact:"+t.Type+"-outside-gap", fmt.Sprintf("%s lexeme [%d:%d] leaves the gap [%d:%d] between its neighbours", t.Type, lx.Begin, lx.End, lo, hi), rp)
+				return
+			}
+			got := ""
+			if lx.End >= lx.Begin {
+				got = string(content[lx.Begin : lx.End+1])
+			}
+			g := normText(got)
+			if t.Type == "text" && strings.HasPrefix(g, "(") && strings.HasSuffix(g, ")") {
+				g = normText(g[1 : len(g)-1])
+			}
+			if g != normText(t.Text) {
+				c.Violate("exact:"+t.Type+"-bytes", fmt.Sprintf("%s lexeme reads %q, the document has %q", t.Type, trunc(got, 80), trunc(t.Text, 80)), rp)
+				return
+			}
+		case "schema", "enum", "regex":
+			// a body starts exactly where it was rendered; jsight-schema-core, which measures the body, may take the
+			// comments and blanks that follow it into the lexeme – nothing else
+			ok := lx.Begin == t.Begin && lx.End >= t.End && lx.End < len(content)
+			if ok && lx.End > t.End {
+				if tr, _ := ref.TriviaOnly(content[t.End+1 : lx.End+1]); !tr {
+					ok = false
+				}
+			}
+			if !ok {
+				c.Violate("exact:"+t.Type+"-bounds", fmt.Sprintf("%s lexeme %d is [%d:%d], the document has %q at [%d:%d]", t.Type, i, lx.Begin, lx.End, trunc(t.Text, 40), t.Begin, t.End), rp)
+				return
+			}
+		default:
+			if lx.Begin != t.Begin || lx.End != t.End {
+				c.Violate("exact:"+t.Type+"-bounds", fmt.Sprintf("%s lexeme %d is [%d:%d], the document has %q at [%d:%d]", t.Type, i, lx.Begin, lx.End, trunc(t.Text, 40), t.Begin, t.End), rp)
+				return
+			}
+		}
+	}
+}
